@@ -1,8 +1,928 @@
-//! op × driver -> buffer range kind table (C08/C14). Filled in by the C08 builder.
-use std::path::Path;
+//! op x driver -> buffer range kind table, result-mapping table and open-flag table (C08/C14)
+//!   -> Gen/OpTable.lean   (namespaces `Compio.Gen.OpTable` and `Compio.Gen.OpenFlags`)
+//!
+//! For every `unsafe impl<..> OpCode for <Op><..>` of op/{general,fs,socket}/{iour,poll}.rs:
+//!   * the *direction* of each buffer parameter, from the generic bound of the impl header
+//!     (`IoBufMut`/`IoVectoredBufMut` = read, `IoBuf`/`IoVectoredBuf` = write), cross-checked against the
+//!     bound on the `struct` definition and the field the parameter types (`buffer: T`, `control: C`);
+//!   * the *range kinds* handed to the OS, found by scanning every method body of the impl and,
+//!     transitively, the inherent helper methods it calls (`self.call(..)`, `self.init_control(..)`,
+//!     `self.header.create_control(..)`, `ctrl.init_mut(..)` of pal/poll/aio.rs, all `cfg_select!` branches):
+//!     `as_init`/`sys_slice`/`sys_slices` (and `buf_ptr`/`buf_len` on the control buffer) = initialised,
+//!     `as_uninit`/`sys_slice_mut`/`sys_slices_mut` (and `buf_mut_ptr`/`buf_capacity` on the control buffer)
+//!     = writable.
+//! For every high-level call in compio-fs/src/file.rs and compio-runtime/src/fd/async_fd/mod.rs that builds
+//! one of these ops: the result mapping it applies (`map_advanced`, `map_vec_advanced`, none).
+//! For compio-fs/src/open_options/unix.rs: `get_access_mode` / `get_creation_mode` evaluated on all 2^5
+//! settings of the boolean fields.
+//!
+//! FAIL CLOSED: an unknown bound, a range-kind call on an unrecognised receiver, a range-kind name inside
+//! an unparsed macro, an unresolvable `self.<helper>()`, an unknown statement shape in the open-flag
+//! functions ... are errors.
 
-use crate::Res;
+use std::{
+    collections::{BTreeMap, BTreeSet},
+    fmt::Write as _,
+    path::Path,
+};
 
-pub fn generate(_repo: &Path) -> Res<String> {
-    Err("OpTable extraction not implemented yet".into())
+use proc_macro2::{TokenStream, TokenTree};
+use syn::visit::Visit;
+
+use crate::{Res, header, parse_file, tokens};
+
+const OP_FILES: [(&str, &str); 6] = [
+    ("compio-driver/src/sys/op/general/iour.rs", "iour"),
+    ("compio-driver/src/sys/op/general/poll.rs", "poll"),
+    ("compio-driver/src/sys/op/fs/iour.rs", "iour"),
+    ("compio-driver/src/sys/op/fs/poll.rs", "poll"),
+    ("compio-driver/src/sys/op/socket/iour.rs", "iour"),
+    ("compio-driver/src/sys/op/socket/poll.rs", "poll"),
+];
+
+/// files holding struct definitions and inherent helper methods of the ops
+const HELPER_FILES: [&str; 6] = [
+    "compio-driver/src/sys/op/unix.rs",
+    "compio-driver/src/sys/op/general/mod.rs",
+    "compio-driver/src/sys/op/fs/mod.rs",
+    "compio-driver/src/sys/op/socket/mod.rs",
+    "compio-driver/src/sys/op/socket/unix.rs",
+    "compio-driver/src/sys/pal/poll/aio.rs",
+];
+
+const MAPPING_FILES: [&str; 2] = ["compio-fs/src/file.rs", "compio-runtime/src/fd/async_fd/mod.rs"];
+
+const OPEN_FILE: &str = "compio-fs/src/open_options/unix.rs";
+
+#[derive(Clone, Copy, PartialEq, Eq, PartialOrd, Ord, Debug)]
+enum Kind {
+    Init,
+    Writable,
+}
+
+impl Kind {
+    fn lean(self) -> &'static str {
+        match self {
+            Kind::Init => ".init",
+            Kind::Writable => ".writable",
+        }
+    }
+}
+
+#[derive(Clone, Copy, PartialEq, Eq, Debug)]
+enum Dir {
+    Read,
+    Write,
+}
+
+#[derive(Clone, Copy, PartialEq, Eq, Debug)]
+struct BufParam {
+    dir: Dir,
+    vectored: bool,
+}
+
+fn classify_bound(name: &str) -> Option<BufParam> {
+    Some(match name {
+        "IoBufMut" => BufParam { dir: Dir::Read, vectored: false },
+        "IoVectoredBufMut" => BufParam { dir: Dir::Read, vectored: true },
+        "IoBuf" => BufParam { dir: Dir::Write, vectored: false },
+        "IoVectoredBuf" => BufParam { dir: Dir::Write, vectored: true },
+        _ => return None,
+    })
+}
+
+const MAIN_INIT: [&str; 3] = ["as_init", "sys_slice", "sys_slices"];
+const MAIN_WRITABLE: [&str; 3] = ["as_uninit", "sys_slice_mut", "sys_slices_mut"];
+const CTRL_INIT: [&str; 2] = ["buf_ptr", "buf_len"];
+const CTRL_WRITABLE: [&str; 2] = ["buf_mut_ptr", "buf_capacity"];
+/// length queries that hand nothing to the OS
+const NEUTRAL: [&str; 4] = ["buf_capacity", "total_capacity", "buf_len", "total_len"];
+
+fn is_range_name(n: &str) -> bool {
+    MAIN_INIT.contains(&n) || MAIN_WRITABLE.contains(&n)
+}
+
+fn nospace<T: quote::ToTokens>(t: &T) -> String {
+    tokens(t).replace(' ', "")
+}
+
+/// `&self.buffer`, `&mut self.buffer`, `(self.buffer)` -> `self.buffer`
+fn strip_ref(s: &str) -> &str {
+    let mut s = s;
+    loop {
+        if let Some(r) = s.strip_prefix("&mut") {
+            s = r;
+        } else if let Some(r) = s.strip_prefix('&') {
+            s = r;
+        } else if s.starts_with('(') && s.ends_with(')') {
+            s = &s[1..s.len() - 1];
+        } else if let Some(r) = s.strip_prefix('*') {
+            s = r;
+        } else {
+            return s;
+        }
+    }
+}
+
+/// generic parameters of an impl/struct: name -> bound idents
+fn param_bounds(g: &syn::Generics, what: &str) -> Res<Vec<(String, Vec<String>)>> {
+    if g.where_clause.is_some() {
+        return Err(format!("{what}: where-clause not supported"));
+    }
+    let mut out = vec![];
+    for p in &g.params {
+        match p {
+            syn::GenericParam::Type(t) => {
+                let mut bs = vec![];
+                for b in &t.bounds {
+                    match b {
+                        syn::TypeParamBound::Trait(tb) => {
+                            bs.push(tb.path.segments.last().ok_or("empty bound")?.ident.to_string())
+                        }
+                        other => return Err(format!("{what}: unsupported bound {}", tokens(other))),
+                    }
+                }
+                out.push((t.ident.to_string(), bs));
+            }
+            other => return Err(format!("{what}: unsupported generic parameter {}", tokens(other))),
+        }
+    }
+    Ok(out)
+}
+
+fn buf_params(g: &syn::Generics, what: &str) -> Res<BTreeMap<String, BufParam>> {
+    let mut m = BTreeMap::new();
+    for (name, bounds) in param_bounds(g, what)? {
+        let mut found = None;
+        for b in &bounds {
+            if let Some(c) = classify_bound(b) {
+                if found.is_some() {
+                    return Err(format!("{what}: parameter {name} has two buffer bounds"));
+                }
+                found = Some(c);
+            } else if b != "AsFd" {
+                return Err(format!("{what}: unknown bound `{b}` on parameter {name}"));
+            }
+        }
+        if let Some(c) = found {
+            m.insert(name, c);
+        }
+    }
+    Ok(m)
+}
+
+fn self_name(ty: &syn::Type) -> Res<(String, Vec<String>)> {
+    let syn::Type::Path(p) = ty else { return Err(format!("unsupported self type {}", tokens(ty))) };
+    let seg = p.path.segments.last().ok_or("empty self type")?;
+    let mut args = vec![];
+    match &seg.arguments {
+        syn::PathArguments::None => {}
+        syn::PathArguments::AngleBracketed(a) => {
+            for x in &a.args {
+                args.push(nospace(x));
+            }
+        }
+        other => return Err(format!("unsupported type arguments {}", tokens(other))),
+    }
+    Ok((seg.ident.to_string(), args))
+}
+
+// ---------------------------------------------------------------------------------------------
+// cfg_select! { pred => { items } ... } inside an impl: every branch is parsed as impl items
+// ---------------------------------------------------------------------------------------------
+
+fn cfg_select_branches(ts: TokenStream) -> Res<Vec<TokenStream>> {
+    let mut out = vec![];
+    let mut it = ts.into_iter().peekable();
+    loop {
+        // predicate up to `=>`
+        let mut saw_any = false;
+        let mut arrow = false;
+        while let Some(t) = it.next() {
+            saw_any = true;
+            if let TokenTree::Punct(p) = &t {
+                if p.as_char() == '=' {
+                    if let Some(TokenTree::Punct(q)) = it.peek() {
+                        if q.as_char() == '>' {
+                            it.next();
+                            arrow = true;
+                            break;
+                        }
+                    }
+                }
+            }
+        }
+        if !saw_any {
+            break;
+        }
+        if !arrow {
+            return Err("cfg_select!: predicate without `=>`".into());
+        }
+        match it.next() {
+            Some(TokenTree::Group(g)) if g.delimiter() == proc_macro2::Delimiter::Brace => out.push(g.stream()),
+            other => return Err(format!("cfg_select!: expected a braced branch, found {other:?}")),
+        }
+        if let Some(TokenTree::Punct(p)) = it.peek() {
+            if p.as_char() == ',' {
+                it.next();
+            }
+        }
+    }
+    if out.is_empty() {
+        return Err("cfg_select!: no branch".into());
+    }
+    Ok(out)
+}
+
+fn macro_mentions_range(ts: &TokenStream) -> Option<String> {
+    for t in ts.clone() {
+        match t {
+            TokenTree::Ident(i) => {
+                let s = i.to_string();
+                if is_range_name(&s) || CTRL_INIT[0] == s || CTRL_WRITABLE[0] == s {
+                    return Some(s);
+                }
+            }
+            TokenTree::Group(g) => {
+                if let Some(s) = macro_mentions_range(&g.stream()) {
+                    return Some(s);
+                }
+            }
+            _ => {}
+        }
+    }
+    None
+}
+
+// ---------------------------------------------------------------------------------------------
+// helper methods (inherent impls)
+// ---------------------------------------------------------------------------------------------
+
+#[derive(Default)]
+struct Helpers {
+    /// (type name, method name) -> bodies (several when the method exists in several cfg branches)
+    methods: BTreeMap<(String, String), Vec<syn::ImplItemFn>>,
+    /// struct name -> (generics, fields name -> type text)
+    structs: BTreeMap<String, (syn::Generics, Vec<(String, String)>)>,
+}
+
+impl Helpers {
+    fn add_impl_items(&mut self, ty: &str, items: &[syn::ImplItem], src: &str) -> Res<()> {
+        for ii in items {
+            match ii {
+                syn::ImplItem::Fn(f) => {
+                    self.methods.entry((ty.to_string(), f.sig.ident.to_string())).or_default().push(f.clone());
+                }
+                syn::ImplItem::Macro(m) => {
+                    let name = nospace(&m.mac.path);
+                    if name == "cfg_select" {
+                        for br in cfg_select_branches(m.mac.tokens.clone())? {
+                            let wrapped: TokenStream = quote::quote! { impl __X { #br } };
+                            let im: syn::ItemImpl = syn::parse2(wrapped)
+                                .map_err(|e| format!("{src}: cfg_select! branch in impl {ty} does not parse as impl items: {e}"))?;
+                            self.add_impl_items(ty, &im.items, src)?;
+                        }
+                    } else if let Some(n) = macro_mentions_range(&m.mac.tokens) {
+                        return Err(format!("{src}: macro {name}! in impl {ty} mentions `{n}`"));
+                    }
+                }
+                _ => {}
+            }
+        }
+        Ok(())
+    }
+
+    fn add_file(&mut self, file: &syn::File, src: &str) -> Res<()> {
+        for it in &file.items {
+            match it {
+                syn::Item::Impl(im) if im.trait_.is_none() => {
+                    let (ty, _) = self_name(&im.self_ty)?;
+                    self.add_impl_items(&ty, &im.items, src)?;
+                }
+                syn::Item::Struct(s) => {
+                    let mut fields = vec![];
+                    if let syn::Fields::Named(n) = &s.fields {
+                        for f in &n.named {
+                            fields.push((f.ident.as_ref().unwrap().to_string(), nospace(&f.ty)));
+                        }
+                    }
+                    // FileStat/PathStat are defined once per driver file with the same generics
+                    self.structs.entry(s.ident.to_string()).or_insert((s.generics.clone(), fields));
+                }
+                syn::Item::Macro(m) => {
+                    if let Some(n) = macro_mentions_range(&m.mac.tokens) {
+                        return Err(format!("{src}: item macro {}! mentions `{n}`", nospace(&m.mac.path)));
+                    }
+                }
+                _ => {}
+            }
+        }
+        Ok(())
+    }
+}
+
+// ---------------------------------------------------------------------------------------------
+// body scan
+// ---------------------------------------------------------------------------------------------
+
+struct Scan<'a> {
+    helpers: &'a Helpers,
+    op: String,
+    /// receiver text -> which buffer it denotes
+    main_recv: Vec<String>,
+    ctrl_recv: Vec<String>,
+    main: Vec<(Kind, String)>,
+    ctrl: Vec<(Kind, String)>,
+    visited: BTreeSet<(String, String)>,
+    site: String,
+    err: Option<String>,
+}
+
+impl<'a> Scan<'a> {
+    fn fail(&mut self, e: String) {
+        if self.err.is_none() {
+            self.err = Some(e);
+        }
+    }
+
+    fn scan_helper(&mut self, ty: &str, method: &str, bind_buf: Option<(&str, bool)>) -> bool {
+        let key = (ty.to_string(), method.to_string());
+        let Some(bodies) = self.helpers.methods.get(&key) else { return false };
+        if !self.visited.insert(key) {
+            return true;
+        }
+        let saved_site = self.site.clone();
+        let saved_main = self.main_recv.clone();
+        let saved_ctrl = self.ctrl_recv.clone();
+        if let Some((name, is_ctrl)) = bind_buf {
+            if is_ctrl {
+                self.ctrl_recv.push(name.to_string());
+            } else {
+                self.main_recv.push(name.to_string());
+            }
+        }
+        for (i, f) in bodies.clone().iter().enumerate() {
+            self.site = format!("{ty}::{method}#{i}");
+            self.visit_block(&f.block);
+        }
+        self.site = saved_site;
+        self.main_recv = saved_main;
+        self.ctrl_recv = saved_ctrl;
+        true
+    }
+}
+
+impl<'a, 'ast> Visit<'ast> for Scan<'a> {
+    fn visit_expr_method_call(&mut self, m: &'ast syn::ExprMethodCall) {
+        let recv_full = nospace(&m.receiver);
+        let recv = strip_ref(&recv_full).to_string();
+        let name = m.method.to_string();
+        let site = format!("{}:{}.{}", self.site, recv, name);
+        if self.main_recv.contains(&recv) {
+            if MAIN_INIT.contains(&name.as_str()) {
+                self.main.push((Kind::Init, site));
+            } else if MAIN_WRITABLE.contains(&name.as_str()) {
+                self.main.push((Kind::Writable, site));
+            } else if !NEUTRAL.contains(&name.as_str()) {
+                self.fail(format!("{}: unrecognised method `{name}` on buffer `{recv}` in {}", self.op, self.site));
+            }
+        } else if self.ctrl_recv.contains(&recv) {
+            if CTRL_INIT.contains(&name.as_str()) || MAIN_INIT.contains(&name.as_str()) {
+                self.ctrl.push((Kind::Init, site));
+            } else if CTRL_WRITABLE.contains(&name.as_str()) || MAIN_WRITABLE.contains(&name.as_str()) {
+                self.ctrl.push((Kind::Writable, site));
+            } else {
+                self.fail(format!("{}: unrecognised method `{name}` on control buffer `{recv}` in {}", self.op, self.site));
+            }
+        } else if is_range_name(&name) {
+            self.fail(format!("{}: range-kind call `{recv}.{name}()` on an unrecognised receiver in {}", self.op, self.site));
+        } else if recv == "self" {
+            let op = self.op.clone();
+            if !self.scan_helper(&op, &name, None) {
+                self.fail(format!("{}: cannot resolve helper `self.{name}()` in {}", self.op, self.site));
+            }
+        } else if recv == "self.header" {
+            let mut found = false;
+            for ty in ["RecvFromHeader", "SendToHeader"] {
+                found |= self.scan_helper(ty, &name, None);
+            }
+            if !found {
+                self.fail(format!("{}: cannot resolve `self.header.{name}()` in {}", self.op, self.site));
+            }
+        } else if ["ctrl", "control", "_control"].contains(&recv.as_str())
+            && ["init", "init_mut", "init_vec", "init_vec_mut"].contains(&name.as_str())
+        {
+            // AioControl::init*(fd, buf, offset): the second argument must be the op's main buffer
+            let args: Vec<String> = m.args.iter().map(|a| nospace(a)).collect();
+            if args.len() != 3 || strip_ref(&args[1]) != "self.buffer" {
+                self.fail(format!("{}: `{recv}.{name}` is not called as (fd, self.buffer, offset): {args:?}", self.op));
+            } else if !self.scan_helper("AioControl", &name, Some(("buf", false))) {
+                self.fail(format!("{}: cannot resolve `AioControl::{name}`", self.op));
+            }
+            // the same helper may be used by several ops
+            self.visited.remove(&("AioControl".to_string(), name.clone()));
+        }
+        syn::visit::visit_expr_method_call(self, m);
+    }
+
+    fn visit_expr_call(&mut self, c: &'ast syn::ExprCall) {
+        if let syn::Expr::Path(p) = &*c.func {
+            if let Some(seg) = p.path.segments.last() {
+                let n = seg.ident.to_string();
+                if is_range_name(&n) {
+                    self.fail(format!("{}: range-kind function call `{}` (not a method call) in {}", self.op, nospace(&c.func), self.site));
+                }
+            }
+        }
+        syn::visit::visit_expr_call(self, c);
+    }
+
+    fn visit_macro(&mut self, m: &'ast syn::Macro) {
+        let name = nospace(&m.path);
+        if name == "cfg_select" {
+            // statement-level cfg_select!: try every branch as a block
+            match cfg_select_branches(m.tokens.clone()) {
+                Ok(brs) => {
+                    for br in brs {
+                        let wrapped: TokenStream = quote::quote! { { #br } };
+                        match syn::parse2::<syn::Block>(wrapped) {
+                            Ok(b) => self.visit_block(&b),
+                            Err(e) => {
+                                if let Some(n) = macro_mentions_range(&br) {
+                                    self.fail(format!("{}: unparsed cfg_select! branch mentions `{n}` in {} ({e})", self.op, self.site));
+                                }
+                            }
+                        }
+                    }
+                }
+                Err(e) => self.fail(format!("{}: {e} in {}", self.op, self.site)),
+            }
+        } else if let Ok(e) = syn::parse2::<syn::Expr>(m.tokens.clone()) {
+            // syscall!(libc::recvmsg(..)), poll_io-like wrappers: scan the argument expression
+            self.visit_expr(&e);
+        } else if let Some(n) = macro_mentions_range(&m.tokens) {
+            self.fail(format!("{}: macro {name}! mentions `{n}` in {}", self.op, self.site));
+        }
+    }
+}
+
+struct Row {
+    op: String,
+    driver: &'static str,
+    file: &'static str,
+    main: Option<BufParam>,
+    ctrl: Option<BufParam>,
+    main_kinds: Vec<(Kind, String)>,
+    ctrl_kinds: Vec<(Kind, String)>,
+}
+
+fn dedup_kinds(v: &[(Kind, String)]) -> Vec<Kind> {
+    let s: BTreeSet<Kind> = v.iter().map(|x| x.0).collect();
+    s.into_iter().collect()
+}
+
+fn scan_impl(im: &syn::ItemImpl, driver: &'static str, file: &'static str, helpers: &Helpers) -> Res<Row> {
+    let (op, args) = self_name(&im.self_ty)?;
+    let what = format!("{file}: impl OpCode for {op}");
+    if im.unsafety.is_none() {
+        return Err(format!("{what}: expected `unsafe impl`"));
+    }
+    let bufs = buf_params(&im.generics, &what)?;
+    let mut main = None;
+    let mut ctrl = None;
+    for (name, bp) in &bufs {
+        if !args.contains(name) {
+            return Err(format!("{what}: buffer parameter {name} is not an argument of the self type"));
+        }
+        match name.as_str() {
+            "T" => main = Some(*bp),
+            "C" => ctrl = Some(*bp),
+            other => return Err(format!("{what}: buffer parameter named `{other}` (expected T or C)")),
+        }
+    }
+    // cross-check with the struct definition
+    let (sg, fields) = helpers.structs.get(&op).ok_or(format!("{what}: struct {op} not found"))?;
+    let sbufs = buf_params(sg, &format!("struct {op}"))?;
+    if sbufs != bufs {
+        return Err(format!("{what}: buffer bounds {bufs:?} differ from those of the struct {sbufs:?}"));
+    }
+    for (p, field) in [("T", "buffer"), ("C", "control")] {
+        if bufs.contains_key(p) {
+            let ok = fields.iter().any(|(n, t)| n == field && t == p);
+            let others = fields.iter().filter(|(n, t)| t == p && n != field).count();
+            if !ok || others > 0 {
+                return Err(format!("{what}: expected exactly one field `{field}: {p}` in struct {op}, found {fields:?}"));
+            }
+        }
+    }
+    let mut sc = Scan {
+        helpers,
+        op: op.clone(),
+        main_recv: if main.is_some() { vec!["self.buffer".into()] } else { vec![] },
+        ctrl_recv: if ctrl.is_some() { vec!["self.control".into()] } else { vec![] },
+        main: vec![],
+        ctrl: vec![],
+        visited: BTreeSet::new(),
+        site: String::new(),
+        err: None,
+    };
+    for ii in &im.items {
+        match ii {
+            syn::ImplItem::Fn(f) => {
+                sc.site = format!("{driver}:{op}::{}", f.sig.ident);
+                sc.visit_block(&f.block);
+            }
+            syn::ImplItem::Type(_) => {}
+            other => return Err(format!("{what}: unsupported impl item {}", tokens(other))),
+        }
+    }
+    if let Some(e) = sc.err {
+        return Err(e);
+    }
+    if main.is_none() && !sc.main.is_empty() || ctrl.is_none() && !sc.ctrl.is_empty() {
+        return Err(format!("{what}: range-kind calls without a buffer parameter"));
+    }
+    Ok(Row { op, driver, file, main, ctrl, main_kinds: sc.main, ctrl_kinds: sc.ctrl })
+}
+
+// ---------------------------------------------------------------------------------------------
+// result mappings of the high-level calls
+// ---------------------------------------------------------------------------------------------
+
+struct FindMapping {
+    ops: Vec<String>,
+    maps: Vec<String>,
+    known: BTreeSet<String>,
+}
+
+impl<'ast> Visit<'ast> for FindMapping {
+    fn visit_expr_call(&mut self, c: &'ast syn::ExprCall) {
+        if let syn::Expr::Path(p) = &*c.func {
+            let segs: Vec<String> = p.path.segments.iter().map(|s| s.ident.to_string()).collect();
+            if segs.len() == 2 && segs[1] == "new" && self.known.contains(&segs[0]) {
+                self.ops.push(segs[0].clone());
+            }
+        }
+        syn::visit::visit_expr_call(self, c);
+    }
+
+    fn visit_expr_method_call(&mut self, m: &'ast syn::ExprMethodCall) {
+        let n = m.method.to_string();
+        if n == "map_advanced" || n == "map_vec_advanced" || n == "take_buffer" {
+            self.maps.push(n);
+        }
+        syn::visit::visit_expr_method_call(self, m);
+    }
+}
+
+fn scan_mappings(file: &syn::File, rel: &str, known: &BTreeSet<String>, out: &mut Vec<(String, String, String, String)>) -> Res<()> {
+    for it in &file.items {
+        let syn::Item::Impl(im) = it else { continue };
+        let on = nospace(&im.self_ty);
+        for ii in &im.items {
+            let syn::ImplItem::Fn(f) = ii else { continue };
+            let mut fm = FindMapping { ops: vec![], maps: vec![], known: known.clone() };
+            fm.visit_block(&f.block);
+            if fm.ops.is_empty() {
+                continue;
+            }
+            if fm.ops.len() != 1 || fm.maps.len() > 1 {
+                return Err(format!("{rel}: {on}::{}: expected one op and at most one mapping, found {:?} {:?}", f.sig.ident, fm.ops, fm.maps));
+            }
+            let mapping = match fm.maps.first().map(|s| s.as_str()) {
+                None => ".none",
+                Some("map_advanced") => ".advanced",
+                Some("map_vec_advanced") => ".vecAdvanced",
+                Some(other) => return Err(format!("{rel}: {on}::{}: unsupported mapping {other}", f.sig.ident)),
+            };
+            out.push((rel.to_string(), format!("{on}::{}", f.sig.ident), fm.ops[0].clone(), mapping.to_string()));
+        }
+    }
+    Ok(())
+}
+
+// ---------------------------------------------------------------------------------------------
+// open flags
+// ---------------------------------------------------------------------------------------------
+
+type Env = BTreeMap<String, bool>;
+
+fn eval_bool(e: &syn::Expr, env: &Env) -> Res<bool> {
+    Ok(match e {
+        syn::Expr::Paren(p) => eval_bool(&p.expr, env)?,
+        syn::Expr::Unary(u) if matches!(u.op, syn::UnOp::Not(_)) => !eval_bool(&u.expr, env)?,
+        syn::Expr::Binary(b) => match b.op {
+            syn::BinOp::And(_) => eval_bool(&b.left, env)? && eval_bool(&b.right, env)?,
+            syn::BinOp::Or(_) => eval_bool(&b.left, env)? || eval_bool(&b.right, env)?,
+            _ => return Err(format!("open flags: unsupported operator in {}", tokens(e))),
+        },
+        syn::Expr::Field(_) => {
+            let t = nospace(e);
+            let f = t.strip_prefix("self.").ok_or(format!("open flags: unsupported operand {t}"))?;
+            *env.get(f).ok_or(format!("open flags: unknown field {f}"))?
+        }
+        _ => return Err(format!("open flags: unsupported condition {}", tokens(e))),
+    })
+}
+
+/// `OFlags::A | OFlags::B`, `OFlags::empty()`
+fn eval_flags(e: &syn::Expr) -> Res<Vec<String>> {
+    Ok(match e {
+        syn::Expr::Paren(p) => eval_flags(&p.expr)?,
+        syn::Expr::Binary(b) if matches!(b.op, syn::BinOp::BitOr(_)) => {
+            let mut l = eval_flags(&b.left)?;
+            l.extend(eval_flags(&b.right)?);
+            l
+        }
+        syn::Expr::Path(_) => {
+            let t = nospace(e);
+            vec![t.strip_prefix("OFlags::").ok_or(format!("open flags: unsupported flag {t}"))?.to_string()]
+        }
+        syn::Expr::Call(_) if nospace(e) == "OFlags::empty()" => vec![],
+        _ => return Err(format!("open flags: unsupported flag expression {}", tokens(e))),
+    })
+}
+
+/// result of a function body: Ok(flags) or Err(errno name)
+type FlagRes = Result<Vec<String>, String>;
+
+fn pat_matches(p: &syn::Pat, v: bool) -> Res<bool> {
+    Ok(match p {
+        syn::Pat::Wild(_) => true,
+        syn::Pat::Lit(l) => match &l.lit {
+            syn::Lit::Bool(b) => b.value == v,
+            _ => return Err(format!("open flags: unsupported pattern {}", tokens(p))),
+        },
+        _ => return Err(format!("open flags: unsupported pattern {}", tokens(p))),
+    })
+}
+
+fn eval_result_expr(e: &syn::Expr, env: &Env) -> Res<FlagRes> {
+    match e {
+        syn::Expr::Call(c) => {
+            let f = nospace(&c.func);
+            let arg = c.args.first().ok_or("open flags: call without argument")?;
+            match f.as_str() {
+                "Ok" => match arg {
+                    syn::Expr::Match(_) => match eval_result_expr(arg, env)? {
+                        Ok(f) => Ok(Ok(f)),
+                        Err(e) => Err(format!("open flags: error inside Ok(match): {e}")),
+                    },
+                    _ => Ok(Ok(eval_flags(arg)?)),
+                },
+                "Err" => {
+                    let t = nospace(arg);
+                    Ok(Err(t.strip_prefix("Errno::").ok_or(format!("open flags: unsupported error {t}"))?.to_string()))
+                }
+                _ => Ok(Ok(eval_flags(e)?)),
+            }
+        }
+        syn::Expr::Match(m) => {
+            let syn::Expr::Tuple(t) = &*m.expr else { return Err("open flags: match scrutinee is not a tuple".into()) };
+            let vals: Vec<bool> = t.elems.iter().map(|x| eval_bool(x, env)).collect::<Res<_>>()?;
+            for arm in &m.arms {
+                if arm.guard.is_some() {
+                    return Err("open flags: match guard not supported".into());
+                }
+                let syn::Pat::Tuple(pt) = &arm.pat else { return Err(format!("open flags: unsupported arm pattern {}", tokens(&arm.pat))) };
+                if pt.elems.len() != vals.len() {
+                    return Err("open flags: arm arity".into());
+                }
+                let mut all = true;
+                for (p, v) in pt.elems.iter().zip(&vals) {
+                    all &= pat_matches(p, *v)?;
+                }
+                if all {
+                    return eval_result_expr(&arm.body, env);
+                }
+            }
+            Err(format!("open flags: non-exhaustive match for {vals:?}"))
+        }
+        _ => Ok(Ok(eval_flags(e)?)),
+    }
+}
+
+fn eval_fn(f: &syn::ImplItemFn, env: &Env) -> Res<FlagRes> {
+    let n = f.block.stmts.len();
+    for (i, st) in f.block.stmts.iter().enumerate() {
+        match st {
+            syn::Stmt::Expr(syn::Expr::If(ife), _) if i + 1 < n => {
+                if ife.else_branch.is_some() {
+                    return Err("open flags: if/else statement not supported".into());
+                }
+                if eval_bool(&ife.cond, env)? {
+                    if ife.then_branch.stmts.len() != 1 {
+                        return Err("open flags: expected a single return in the if".into());
+                    }
+                    let syn::Stmt::Expr(syn::Expr::Return(r), _) = &ife.then_branch.stmts[0] else {
+                        return Err("open flags: expected `return` in the if".into());
+                    };
+                    return eval_result_expr(r.expr.as_ref().ok_or("open flags: bare return")?, env);
+                }
+            }
+            syn::Stmt::Expr(e, None) if i + 1 == n => return eval_result_expr(e, env),
+            other => return Err(format!("open flags: unsupported statement {}", tokens(other))),
+        }
+    }
+    Err("open flags: empty function".into())
+}
+
+const OPEN_FIELDS: [&str; 5] = ["read", "write", "truncate", "create", "create_new"];
+const KNOWN_FLAGS: [&str; 7] = ["RDONLY", "WRONLY", "RDWR", "CREATE", "TRUNC", "EXCL", "CLOEXEC"];
+
+fn gen_open_flags(repo: &Path, s: &mut String) -> Res<()> {
+    let file = parse_file(&repo.join(OPEN_FILE))?;
+    // the boolean fields of the struct
+    let mut bools = vec![];
+    for it in &file.items {
+        if let syn::Item::Struct(st) = it {
+            if st.ident == "OpenOptions" {
+                for f in &st.fields {
+                    if nospace(&f.ty) == "bool" {
+                        bools.push(f.ident.as_ref().unwrap().to_string());
+                    }
+                }
+            }
+        }
+    }
+    if bools != OPEN_FIELDS {
+        return Err(format!("open flags: boolean fields of OpenOptions are {bools:?}, expected {OPEN_FIELDS:?}"));
+    }
+    let mut access = None;
+    let mut creation = None;
+    let mut open_impl = None;
+    for it in &file.items {
+        let syn::Item::Impl(im) = it else { continue };
+        if nospace(&im.self_ty) != "OpenOptions" {
+            continue;
+        }
+        for ii in &im.items {
+            let syn::ImplItem::Fn(f) = ii else { continue };
+            match f.sig.ident.to_string().as_str() {
+                "get_access_mode" => access = Some(f.clone()),
+                "get_creation_mode" => creation = Some(f.clone()),
+                "open_impl" => open_impl = Some(f.clone()),
+                _ => {}
+            }
+        }
+    }
+    let access = access.ok_or("open flags: get_access_mode not found")?;
+    let creation = creation.ok_or("open flags: get_creation_mode not found")?;
+    let open_impl = open_impl.ok_or("open flags: open_impl not found")?;
+    // how open_impl combines them
+    let expected = "letflags=OFlags::CLOEXEC|self.get_access_mode()?|self.get_creation_mode()?|self.custom_flags;";
+    let first = open_impl.block.stmts.first().map(nospace).unwrap_or_default();
+    if first != expected {
+        return Err(format!("open flags: open_impl starts with `{first}`, expected `{expected}`"));
+    }
+    s.push_str("namespace Compio.Gen.OpenFlags\n\n");
+    s.push_str("inductive OFlag where\n");
+    for f in KNOWN_FLAGS {
+        writeln!(s, "  | {f}").unwrap();
+    }
+    s.push_str("  deriving DecidableEq, Repr\n\n");
+    s.push_str("/-- `none` = `Err(Errno::INVAL)` -/\nabbrev Res := Option (List OFlag)\n\n");
+    for (name, f) in [("accessMode", &access), ("creationMode", &creation)] {
+        writeln!(s, "/-- `OpenOptions::{}` evaluated on every setting of (read, write, truncate, create, create_new) -/", f.sig.ident).unwrap();
+        writeln!(s, "def {name} : Bool → Bool → Bool → Bool → Bool → Res").unwrap();
+        for bits in 0..32u32 {
+            let mut env = Env::new();
+            let mut vals = vec![];
+            for (i, fld) in OPEN_FIELDS.iter().enumerate() {
+                let v = bits & (1 << (4 - i)) != 0;
+                env.insert(fld.to_string(), v);
+                vals.push(v.to_string());
+            }
+            let r = eval_fn(f, &env)?;
+            let txt = match r {
+                Ok(flags) => {
+                    for fl in &flags {
+                        if !KNOWN_FLAGS.contains(&fl.as_str()) {
+                            return Err(format!("open flags: unknown flag {fl}"));
+                        }
+                    }
+                    format!("some [{}]", flags.iter().map(|f| format!(".{f}")).collect::<Vec<_>>().join(", "))
+                }
+                Err(e) if e == "INVAL" => "none".to_string(),
+                Err(e) => return Err(format!("open flags: unexpected errno {e}")),
+            };
+            writeln!(s, "  | {} => {txt}", vals.join(", ")).unwrap();
+        }
+        s.push('\n');
+    }
+    s.push_str("/-- `open_impl`: `OFlags::CLOEXEC | self.get_access_mode()? | self.get_creation_mode()? | self.custom_flags`\n    (custom flags empty) -/\n");
+    s.push_str("def openFlags (r w t c n : Bool) : Res :=\n  match accessMode r w t c n with\n  | none => none\n  | some a =>\n    match creationMode r w t c n with\n    | none => none\n    | some m => some (.CLOEXEC :: a ++ m)\n\n");
+    s.push_str("end Compio.Gen.OpenFlags\n");
+    Ok(())
+}
+
+// ---------------------------------------------------------------------------------------------
+
+fn lean_buf(b: &Option<BufParam>) -> String {
+    match b {
+        None => "none".into(),
+        Some(b) => format!(
+            "(some ⟨{}, {}⟩)",
+            match b.dir {
+                Dir::Read => ".read",
+                Dir::Write => ".write",
+            },
+            b.vectored
+        ),
+    }
+}
+
+fn lean_kinds(k: &[Kind]) -> String {
+    format!("[{}]", k.iter().map(|k| k.lean()).collect::<Vec<_>>().join(", "))
+}
+
+pub fn generate(repo: &Path) -> Res<String> {
+    let mut helpers = Helpers::default();
+    let mut parsed = vec![];
+    for rel in HELPER_FILES {
+        let f = parse_file(&repo.join(rel))?;
+        helpers.add_file(&f, rel)?;
+    }
+    for (rel, drv) in OP_FILES {
+        let f = parse_file(&repo.join(rel))?;
+        helpers.add_file(&f, rel)?;
+        parsed.push((rel, drv, f));
+    }
+    let mut rows = vec![];
+    for (rel, drv, f) in &parsed {
+        let mut n = 0;
+        for it in &f.items {
+            match it {
+                syn::Item::Impl(im) => {
+                    let Some((_, tr, _)) = &im.trait_ else { continue };
+                    if tr.segments.last().map(|s| s.ident == "OpCode").unwrap_or(false) {
+                        rows.push(scan_impl(im, drv, rel, &helpers)?);
+                        n += 1;
+                    }
+                }
+                syn::Item::Macro(m) => {
+                    // an OpCode impl hidden in a macro would escape the table
+                    let has_opcode = m.mac.tokens.clone().into_iter().any(|t| matches!(&t, TokenTree::Ident(i) if i == "OpCode"));
+                    if has_opcode || macro_mentions_range(&m.mac.tokens).is_some() {
+                        return Err(format!("{rel}: item macro {}! contains an OpCode impl or a range-kind call", nospace(&m.mac.path)));
+                    }
+                }
+                _ => {}
+            }
+        }
+        if n == 0 {
+            return Err(format!("{rel}: no OpCode impl found"));
+        }
+    }
+    let known: BTreeSet<String> = rows.iter().filter(|r| r.main.is_some()).map(|r| r.op.clone()).collect();
+    let mut mappings = vec![];
+    for rel in MAPPING_FILES {
+        let f = parse_file(&repo.join(rel))?;
+        scan_mappings(&f, rel, &known, &mut mappings)?;
+    }
+    if mappings.is_empty() {
+        return Err("no high-level call found in the mapping files".into());
+    }
+
+    let mut sources: Vec<&str> = OP_FILES.iter().map(|x| x.0).collect();
+    sources.extend(HELPER_FILES);
+    sources.extend(MAPPING_FILES);
+    sources.push(OPEN_FILE);
+    let mut s = header("OpTable", &sources);
+    s.push_str("namespace Compio.Gen.OpTable\n\n");
+    s.push_str("inductive Driver where\n  | iour | poll\n  deriving DecidableEq, Repr\n\n");
+    s.push_str("/-- direction of a buffer parameter, from its generic bound: `IoBufMut`/`IoVectoredBufMut` = read\n    (the OS writes into it), `IoBuf`/`IoVectoredBuf` = write (the OS reads from it) -/\n");
+    s.push_str("inductive Dir where\n  | read | write\n  deriving DecidableEq, Repr\n\n");
+    s.push_str("/-- the range of the buffer handed to the OS: `init` = `as_init`/`sys_slice`/`sys_slices` (`0..len`),\n    `writable` = `as_uninit`/`sys_slice_mut`/`sys_slices_mut` (`0..capacity`) -/\n");
+    s.push_str("inductive Kind where\n  | init | writable\n  deriving DecidableEq, Repr\n\n");
+    s.push_str("structure BufParam where\n  dir : Dir\n  vectored : Bool\n  deriving DecidableEq, Repr\n\n");
+    s.push_str("structure Row where\n  op : String\n  driver : Driver\n  /-- the `buffer: T` parameter -/\n  main : Option BufParam\n  /-- the `control: C` parameter (ancillary data) -/\n  ctrl : Option BufParam\n  /-- distinct range kinds of `self.buffer` reached from the impl's method bodies -/\n  mainKinds : List Kind\n  ctrlKinds : List Kind\n  deriving DecidableEq, Repr\n\n");
+    s.push_str("def rows : List Row := [\n");
+    for (i, r) in rows.iter().enumerate() {
+        for (k, site) in r.main_kinds.iter().chain(&r.ctrl_kinds) {
+            writeln!(s, "  -- {} {:?} at {}", r.op, k, site).unwrap();
+        }
+        writeln!(
+            s,
+            "  ⟨\"{}\", .{}, {}, {}, {}, {}⟩{}  -- {}",
+            r.op,
+            r.driver,
+            lean_buf(&r.main),
+            lean_buf(&r.ctrl),
+            lean_kinds(&dedup_kinds(&r.main_kinds)),
+            lean_kinds(&dedup_kinds(&r.ctrl_kinds)),
+            if i + 1 < rows.len() { "," } else { "" },
+            r.file
+        )
+        .unwrap();
+    }
+    s.push_str("]\n\n");
+    s.push_str("/-- what the high-level call does with the returned length -/\ninductive Mapping where\n  | none | advanced | vecAdvanced\n  deriving DecidableEq, Repr\n\n");
+    s.push_str("/-- (source file, function, op it builds, mapping applied to the result) -/\ndef mappings : List (String × String × String × Mapping) := [\n");
+    for (i, (file, f, op, m)) in mappings.iter().enumerate() {
+        writeln!(s, "  (\"{file}\", \"{f}\", \"{op}\", {m}){}", if i + 1 < mappings.len() { "," } else { "" }).unwrap();
+    }
+    s.push_str("]\n\nend Compio.Gen.OpTable\n\n");
+    gen_open_flags(repo, &mut s)?;
+    Ok(s)
 }
